@@ -342,5 +342,116 @@ func runC15(c *Ctx) {
 			c.Violation("", p, map[string]interface{}{"readers": readers, "round": round, "workload": "updates"})
 		}
 	}
-	c.Rep.Rule = "the real cache goroutine (verif export) in real time, built with the race detector: 1 / 4 / 16 reader goroutines calling List() and Get() (every reader on rotating keys, plus an absent key: the reply is the caller's key, from a state inside the call's window, never backwards) in a loop against one writer that moves through distinguishable complete states (5 keys all at version i; odd states restricted to 2 keys by a refilter) with sync-by-refilter; each read stamped with the writer's completed-state counter before the call and started-state counter after the return. Oracles: every List() is one complete state (never a mix), within its window (extracted lin_ok), per-reader monotone, a snapshot held across the next read must not change and a scribbled-on one must not show anywhere; a second workload under a label filter of single watch events (updates into and out of the filter, deletes) whose states are the replay of the writer's own returned events; no data race reported by the race detector (a report fails the run). Non-trivial = distinct writer states observed by some reader."
+	fsubRefilterAtomic(c)
+	c.Rep.Rule = "the real cache goroutine (verif export) in real time, built with the race detector: 1 / 4 / 16 reader goroutines calling List() and Get() (every reader on rotating keys, plus an absent key: the reply is the caller's key, from a state inside the call's window, never backwards) in a loop against one writer that moves through distinguishable complete states (5 keys all at version i; odd states restricted to 2 keys by a refilter) with sync-by-refilter; each read stamped with the writer's completed-state counter before the call and started-state counter after the return. Oracles: every List() is one complete state (never a mix), within its window (extracted lin_ok), per-reader monotone, a snapshot held across the next read must not change and a scribbled-on one must not show anywhere; a second workload under a label filter of single watch events (updates into and out of the filter, deletes) whose states are the replay of the writer's own returned events; a third workload one level up: readers on the cache of a FILTERED SUBSCRIPTION of a quiet parent while it is refiltered back and forth between two disjoint label filters: every List() is the one view or the other, never a mixture or the empty intersection; no data race reported by the race detector (a report fails the run). Non-trivial = distinct writer states observed by some reader."
+}
+
+// fsubRefilterAtomic: "never a half-applied relist or refilter" at the level of
+// a filtered subscription.  The parent is quiet and holds three objects labelled
+// A and three labelled B; a filtered subscription is refiltered back and forth
+// between Labels(A) and Labels(B) while readers call List() on its cache at full
+// speed: every result is the A view or the B view.
+func fsubRefilterAtomic(c *Ctx) {
+	rounds := 150
+	if !c.Quick() {
+		rounds = 2500
+	}
+	ctx, cancel := context.WithCancel(context.Background())
+	defer cancel()
+	src := kcache.NewVerifSource(ctx, qlog.Silent(), (&Filt{Tag: FNull}).Go())
+	var viewA, viewB []int
+	for k := 1; k <= 6; k++ {
+		lab := Map{{1, 1}}
+		if k > 3 {
+			lab = Map{{1, 2}}
+		}
+		o := &Obj{ID: 500 + k, Kind: KPod, NS: 1, NM: k, RV: "1", Labels: lab, Spec: SPod}
+		src.CacheActor().Update(kcache.NewEvent(kcache.EventTypeCreate, o.Go()))
+		if k <= 3 {
+			viewA = append(viewA, o.ID)
+		} else {
+			viewB = append(viewB, o.ID)
+		}
+	}
+	src.MakeReady()
+	fA := (&Filt{Tag: FLabels, Map: Map{{1, 1}}}).Go()
+	fB := (&Filt{Tag: FLabels, Map: Map{{1, 2}}}).Go()
+	fs, err := src.SubscribeWithFilter(fA)
+	if err != nil {
+		c.Violation("", "SubscribeWithFilter on a hand-driven source failed: "+err.Error(), nil)
+		return
+	}
+	select {
+	case <-fs.Ready():
+	case <-time.After(5 * time.Second):
+		c.Violation("", "a filtered subscription of a ready source did not become ready in 5 s", nil)
+		return
+	}
+	go func() { // nobody needs the events
+		for range fs.Events() {
+		}
+	}()
+	stop := make(chan struct{})
+	var wg sync.WaitGroup
+	var mu sync.Mutex
+	var bad []string
+	var nreads atomic.Int64
+	seen := map[string]bool{}
+	for r := 0; r < 6; r++ {
+		wg.Add(1)
+		go func() {
+			defer wg.Done()
+			for {
+				select {
+				case <-stop:
+					return
+				default:
+				}
+				l, err := fs.Cache().List()
+				if err != nil {
+					return
+				}
+				ids := make([]int, 0, len(l))
+				for _, o := range l {
+					ids = append(ids, ID(o))
+				}
+				sort.Ints(ids)
+				nreads.Add(1)
+				key := fmt.Sprint(ids)
+				mu.Lock()
+				seen[key] = true
+				if key != fmt.Sprint(viewA) && key != fmt.Sprint(viewB) && len(bad) < 3 {
+					bad = append(bad, key)
+				}
+				mu.Unlock()
+			}
+		}()
+	}
+	for i := 0; i < rounds; i++ {
+		f := fB
+		if i%2 == 1 {
+			f = fA
+		}
+		if err := fs.Refilter(f); err != nil {
+			c.Violation("", "Refilter failed on a running filtered subscription: "+err.Error(), nil)
+			break
+		}
+		for k := 0; k < i%7; k++ {
+			time.Sleep(50 * time.Microsecond)
+		}
+	}
+	time.Sleep(20 * time.Millisecond)
+	close(stop)
+	wg.Wait()
+	fs.Close()
+	src.Stop()
+	c.Rep.Evaluations += int(nreads.Load())
+	c.Stat("reads_fsub_refilter_workload", int(nreads.Load()))
+	for _, b := range bad {
+		c.Violation("", fmt.Sprintf("a List() on the cache of a filtered subscription that is being refiltered between two disjoint filters returned %s: neither the one view %v nor the other %v (a half-applied refilter)", b, viewA, viewB),
+			map[string]interface{}{"workload": "fsub-refilter", "read": b, "view_a": fmt.Sprint(viewA), "view_b": fmt.Sprint(viewB)})
+	}
+	if len(seen) >= 2 {
+		c.DistinctCase("fsub-refilter-both-views-seen")
+	}
 }
